@@ -120,6 +120,19 @@ f10_S: #D10_S & {spec_S: name_S: "n"}`,
 	/*17*/ `f17_S: {a_S: "x" | "y" | *"z", b_S: {if a_S == "z" {c_S: true}}}`,
 	/*18*/ `f18_S: {bad_S: 1 & 2, ok_S: 1}`,
 	/*19*/ `f19_S: {t_S: struct.MinFields(1) & {a_S: 1}, u_S: list.Sort([3, 1, 2], list.Ascending)}`,
+	// disjunctions that unification resolves to one disjunct (tagged unions, narrowed defaults, lists of unions)
+	/*20*/ `#U20_S: {k_S: "a", va_S: int} | {k_S: "b", vb_S: string}
+f20_S: {u_S: #U20_S & {k_S: "a", va_S: 1}, w_S: #U20_S & {k_S: "b", vb_S: "s"}}`,
+	/*21*/ `f21_S: {sw_S: (*"on" | "off") & "off", d_S: *{p_S: 1, q_S: 2} | {p_S: 3}, e_S: d_S & {p_S: 3}}`,
+	/*22*/ `#A22_S: {t_S: "a", n_S: int}
+#B22_S: {t_S: "b", s_S: string}
+f22_S: {l_S: [...(#A22_S | #B22_S)] & [{t_S: "a", n_S: 1}, {t_S: "b", s_S: "x"}]}`,
+	/*23*/ `#Base23_S: {id_S: string, labels_S: [string]: string}
+f23_S: {#Base23_S, id_S: "i", labels_S: app_S: "x", extra_S: len(labels_S)}`,
+	/*24*/ `f24_S: {in_S: {a_S: 1, b_S: 2}, out_S: {for k, v in in_S {let D_S = v * 2, (k): D_S, if v > 1 {"\(k)_big": true}}}}`,
+	/*25*/ `f25_S: {port_S: *8080 | int, host_S: *"localhost" | string, addr_S: "\(host_S):\(port_S)", tags_S: [...string] | *["x"]}`,
+	/*26*/ `f26_S: {a_S?: int, b_S: *a_S | 7, c_S: {d_S?: {e_S: 1}}, f_S: c_S.d_S.e_S | *0}`,
+	/*27*/ `f27_S: {n_S: 3, l_S: [for i in list.Range(0, n_S, 1) {"i\(i)"}], m_S: {for i, v in l_S {(v): i}}, j_S: strings.Join(l_S, ",")}`,
 }
 
 // program imports only the builtin packages its fragments use, so that the
@@ -143,6 +156,7 @@ func program(c *Case) string {
 var snippetPaths = [][]string{
 	{"", "name_S", "tags_S"}, {"", "y_S", "z_S"}, {""}, {""}, {"", "p1_S"}, {"", "kind_S"}, {"", "g_S"}, {"", "w_S"}, {""}, {"", "a_S.b_S", "r_S"},
 	{"", "spec_S", "spec_S.replicas_S"}, {"", "s_S"}, {""}, {"", "have_S"}, {"", "b_S"}, {""}, {"", "list_S", "sum_S"}, {"", "b_S"}, {"", "ok_S"}, {"", "u_S"},
+	{"", "u_S", "w_S", "u_S.va_S"}, {"", "sw_S", "e_S", "e_S.p_S"}, {"", "l_S"}, {"", "labels_S", "extra_S"}, {"", "out_S"}, {"", "addr_S", "tags_S", "port_S"}, {"", "b_S", "f_S"}, {"", "l_S", "m_S", "j_S"},
 }
 
 var opKinds = []string{"lookup", "fields", "fields-all", "walk", "unify", "unify-accept", "fill", "fill-value", "validate", "validate-concrete", "default", "eval",
